@@ -200,6 +200,9 @@ def alias_rule(chk, db):
         if not ("static_vector" in r or "inplace_vector" in r) or f.get("body") is None or f["n"] in ("assign", "<ctor>", "operator="):
             continue
         ps = [p0["n"] for p0 in f["params"] if p0["ty"].replace(" ", "").split("::")[-1] in ELEM_TYPES]
+        if not ps and f["n"] == "emplace":
+            # [sequence.reqmts]: the arguments of a positional emplace may refer to an element of the container as well
+            ps = [p0["n"] for p0 in f["params"] if p0.get("n") and (p0.get("pack") or p0["ty"].replace(" ", "").endswith("&&..."))]
         if not ps:
             continue
         x = ps[0]
